@@ -1,0 +1,35 @@
+//go:build verif
+
+package ecs
+
+// Contracts for events.go (observer manager).
+
+//@ pred obsShape(m *observerManager) :=
+//@      len(m.observers) == 256 && len(m.hasObservers) == 256 && len(m.allComps) == 256 && len(m.allWith) == 256
+//@   && len(m.anyNoComps) == 256 && len(m.anyNoWith) == 256 && m.indices != nil
+
+// The part of I-obs that Reset relies on: no observers above maxEventType, none at all when the
+// id index is empty, stored observer pointers are not nil.
+//@ pred obsResetInv(m *observerManager) :=
+//@      obsShape(m)
+//@   && (forall e uint8 :: e > uint8(m.maxEventType) ==> !m.hasObservers[e] && len(m.observers[e]) == 0)
+//@   && (forall e uint8 :: !m.hasObservers[e] ==> len(m.observers[e]) == 0)
+//@   && (len(m.indices) == 0 ==> (forall e uint8 :: !m.hasObservers[e]))
+//@   && (forall e uint8, k int :: 0 <= k && k < len(m.observers[e]) ==> m.observers[e][k] != nil)
+
+//@ func (*observerManager).Reset
+//@   serves C16 C08
+//@   requires obsResetInv(m)
+//@   loop 1 invariant cleared: forall e uint8 :: int(e) < i ==> !m.hasObservers[e] && len(m.observers[e]) == 0
+//@   loop 1 invariant rest: forall e uint8 :: int(e) >= i ==> m.hasObservers[e] == old(m.hasObservers[e]) && __same(m.observers[e], old(m.observers[e]))
+//@   loop 1 invariant shape: obsShape(m) && m.maxEventType == old(m.maxEventType)
+//@   loop 2 invariant shape: obsShape(m) && m.maxEventType == old(m.maxEventType)
+//@   ensures  none: forall e uint8 :: !m.hasObservers[e] && len(m.observers[e]) == 0
+//@   ensures  zero: m.totalCount == 0 || old(len(m.indices)) == 0
+//@   ensures  maxevent: m.maxEventType == 0
+
+//@ func (*observerManager).HasObservers
+//@   serves C08 C09
+//@   requires len(m.hasObservers) == 256
+//@   ensures  value: result == m.hasObservers[evt]
+//@   modifies nothing
